@@ -204,6 +204,25 @@ def run(chk):
                                           else "roundtrip:multi-differs", "a stream of %d graphs does not round-trip" % k,
                                           dict(k=k, text=s.getvalue()[:3000]))
                     chk.count("multi_%d" % k)
+                    # the stream read lazily while other loads and dumps happen in between (two streams consumed in
+                    # step; every graph dumped and loaded again before the next one is asked for)
+                    if k >= 2 and not any(qmark(x.asdict()) for x in gs):
+                        chk.case(["multi-interleaved", k, rep_i, simplified], nontrivial=True)
+                        try:
+                            with warnings.catch_warnings():
+                                warnings.simplefilter("ignore")
+                                it1, it2 = demes.load_all(io.StringIO(s.getvalue())), demes.load_all(p)
+                                got = []
+                                for a, b in zip(it1, it2):
+                                    again = demes.loads(demes.dumps(a, simplified=simplified))
+                                    got.append((a.asdict(), b.asdict(), again.asdict()))
+                            bad = len(got) != k or any(compare_resolved(g0.asdict(), x) for g0, t in zip(gs, got) for x in t)
+                        except Exception as e:
+                            bad = repr(e)
+                        if bad:
+                            chk.violation("roundtrip:multi-interleaved", "a multi-document stream read lazily, with other loads in between, "
+                                          "does not give back its graphs (%s)" % (bad if isinstance(bad, str) else "different graphs"),
+                                          dict(k=k, text=s.getvalue()[:3000]))
         chk.sample(dict(description=pool[0][0]["description"], metadata=pool[0][0]["metadata"]), limit=2)
     finally:
         shutil.rmtree(tmp, ignore_errors=True)
